@@ -11,8 +11,8 @@ out.parent.mkdir(parents=True, exist_ok=True)
 cmd = ["g++", "-std=c++11"] + vlib.LIB_FLAGS['dbg'].split() + ["-DEIGEN_INITIALIZE_MATRICES_BY_ZERO", "-I", str(vlib.REPO / "src/BayesFilters/include"), "-I", vlib.EIGEN_INC,
        "findings/repro.cpp", str(lib), "-lpthread", "-o", str(out)]
 subprocess.check_call(cmd)
-for t in ["c09_teardown_hang", "c13_skip_throws", "c11_particleset_resize", "c11_gm_resize_noise", "c14_wna_noise", "c14_linearmodel_noise", "c16_transition",
-          "c14_sim_past_end", "c17_history_shrink", "c12_ut_additive_failure", "c06_sis_layout"]:
+for t in ["c09_teardown_hang", "c13_skip_throws", "c11_particleset_resize", "c11_gm_resize_noise", "c11_concat_components", "c14_wna_noise", "c14_linearmodel_noise", "c16_transition",
+          "c14_sim_past_end", "c17_history_shrink", "c12_ut_additive_failure", "c06_sis_layout", "c13_drawparticles_exogenous", "c19_one_column", "c18_log_cutoff", "c14_ukf_stale_likelihood", "c14_grid_state_rows", "c14_sim_zero_length", "c14_rwp_quaternion", "c14_gpf_moved_closure"]:
     p = subprocess.run([str(out), t], stdout=subprocess.PIPE, stderr=subprocess.PIPE, text=True)
     tail = [l for l in p.stderr.split("\n") if "Assertion" in l or "ERROR: AddressSanitizer" in l or "runtime error" in l][:1]
     print("%-26s exit=%-4d %s %s" % (t, p.returncode, p.stdout.strip().replace("\n", " | ")[:300], (tail[0][:200] if tail else "")))
